@@ -198,21 +198,35 @@ func checkC03(c *Ctx) {
 						return
 					}
 					nEarly++
-					// the branch that sends control to this return: the nearest If above it through single-predecessor blocks
-					b := ret.Block()
-					cnd := ""
-					for hops := 0; hops < 8 && b != nil; hops++ {
-						if len(b.Preds) != 1 {
-							break
+					cnd, cv := nearestBranch(ret.Block())
+					okRet := strings.Contains(cnd, "nil")
+					if !okRet && cv != nil {
+						// `if !ok { return }` with ok the verdict of a lookup helper of the package that answers false only
+						// right behind a nil test (a failed lookup)
+						if v, _ := stripNot(cv); v != nil {
+							if hcall, ridx, isB := boolCallOf(v); isB {
+								if hc := helperCallee(h, &hcall.Call); hc != nil {
+									all, nF := true, 0
+									eachInstr(hc, func(in2 ssa.Instruction) {
+										r2, ok := in2.(*ssa.Return)
+										if !ok || ridx >= len(r2.Results) {
+											return
+										}
+										c2, isC := returnedValue(r2, ridx, nil).(*ssa.Const)
+										if !isC || c2.Value == nil || c2.Value.Kind() != constant.Bool || constant.BoolVal(c2.Value) {
+											return
+										}
+										nF++
+										if hcnd, _ := nearestBranch(r2.Block()); !strings.Contains(hcnd, "nil") {
+											all = false
+										}
+									})
+									okRet = all && nF > 0
+								}
+							}
 						}
-						p := b.Preds[0]
-						if iff, isIf := p.Instrs[len(p.Instrs)-1].(*ssa.If); isIf {
-							cnd, _ = normCond(iff.Cond)
-							break
-						}
-						b = p
 					}
-					if !strings.Contains(cnd, "nil") {
+					if !okRet {
 						bad = true
 						pos = in.Pos()
 					}
@@ -1426,4 +1440,21 @@ func helperFailsOnlyOnConnErrors(f *ssa.Function, idx, ridx int) bool {
 func isBoolType(t types.Type) bool {
 	b, ok := t.Underlying().(*types.Basic)
 	return ok && b.Info()&types.IsBoolean != 0
+}
+
+// nearestBranch: the condition of the nearest If above block b through single-predecessor blocks (the branch that sends
+// control here), normalised, and the condition value itself.
+func nearestBranch(b *ssa.BasicBlock) (string, ssa.Value) {
+	for hops := 0; hops < 8 && b != nil; hops++ {
+		if len(b.Preds) != 1 {
+			return "", nil
+		}
+		p := b.Preds[0]
+		if iff, isIf := p.Instrs[len(p.Instrs)-1].(*ssa.If); isIf {
+			cnd, _ := normCond(iff.Cond)
+			return cnd, iff.Cond
+		}
+		b = p
+	}
+	return "", nil
 }
